@@ -53,7 +53,7 @@ theorem realTimeOkB_iff (recs : List Rec) (a b : Lin) : realTimeOkB recs a b = t
       rw [hresp] at this
       simpa using this
 
-theorem checkLin_iff (s₀ : State) (recs : List Rec) (order : List Lin) :
+theorem checkLin_iff (s₀ : XState) (recs : List Rec) (order : List Lin) :
     checkLin s₀ recs order = none ↔ LinearizedBy s₀ recs order := by
   unfold checkLin
   constructor
